@@ -86,6 +86,8 @@ CONSTS = [
     ("SUBSTREAM_READ_BUFFER_INIT_OTHER", "src/substream/mod.rs",
      r"std::cmp::max\(payload_size,\s*\d+\),\s*_\s*=>\s*(\d+),"),
     ("SUBSTREAM_SIZE_VEC_LEN", "src/substream/mod.rs", r"size_vec:\s*BytesMut::zeroed\((\d+)\)"),
+    ("YAMUX_DEFAULT_CREDIT", "src/yamux/mod.rs", const("DEFAULT_CREDIT")),
+    ("WEBRTC_MAX_INFLIGHT_MESSAGES", "src/transport/webrtc/substream.rs", const("MAX_INFLIGHT_MESSAGES")),
     # C10 (scores are i32; the two negative ones are read as magnitudes: `-100i32` -> 100, `i32::MIN` -> 2^31)
     ("MAX_ADDRESSES", ADDR, const("MAX_ADDRESSES")),
     ("SCORE_CONNECTION_ESTABLISHED", ADDR, const("CONNECTION_ESTABLISHED")),
@@ -195,6 +197,10 @@ def main():
     import gen_c15_dispatch
     counts, miss = gen_c15_dispatch.generate(REPO)
     vals.update(counts)      # C15_QUERY_TYPES, C15_MESSAGE_KINDS, C15_QUERY_ACTIONS
+    # C04: error-kind table and mapping flags -> coq/gen/C04Tables.v (sibling script)
+    import gen_c04_tables
+    counts, miss = gen_c04_tables.generate(REPO)
+    vals.update(counts)      # SUBSTREAM_ERRORKINDS_MASK, EK_*, ...
     missing += list(miss)
     str_names = []
     for name, path, rx in STR_CONSTS:
